@@ -98,10 +98,14 @@ CHECKS = {
              technique="Coq proof (symbolic execution of the three handshake steps for all parameters; induction over message sequences) + executed correspondence over delivery schedules", ref="5 (C05)"),
  "C08": dict(text="Theorems C08_* (Properties/C08.v): for every connection object at every stage and every node state (unknown / pending / "
                   "established source), an unverifiable datagram yields an ordinary error - never the Panic result - leaves peers, pending "
-                  "handshakes, addresses, table and schedule unchanged and emits nothing, also for every sequence; decrypt, Ethernet and IP "
-                  "dissection have no panic result for any input. Tied to the code by every length 0..80 x first byte x receiver state plus "
-                  "mutations of genuine datagrams, run on the real node (catch_unwind, state dump equality) and the model.",
-             technique="Coq proof (case analysis, induction over datagram sequences) + executed correspondence with state-dump oracle", ref="5 (C08)"),
+                  "handshakes, addresses, table and schedule unchanged and emits nothing, also for every sequence; for EVERY wire value (replays of "
+                  "genuine handshake messages included) a connection object satisfying the handshake invariant never reaches the unwrap of a "
+                  "consumed ECDH key, the invariant survives every non-fatal outcome, and a fatal outcome removes a pending object in the same "
+                  "step; decrypt, Ethernet and IP dissection have no panic result for any input. Tied to the code by every length 0..80 x first "
+                  "byte x receiver state, bit flips at every byte position of captured handshake datagrams, truncations, replays of other "
+                  "exchanges' handshake datagrams into pending handshakes (twice each), forged high-counter datagrams, each followed by payload "
+                  "probes on the established connection; run on the real node (catch_unwind, state-dump equality) and the model.",
+             technique="Coq proof (case analysis, invariant preservation, induction over datagram sequences) + executed correspondence with state-dump and probe oracles", ref="5 (C08)"),
  "C09": dict(text="Theorem C09_established_peer_survives (Properties/C09.v): for every node state, every source address and EVERY wire value, each "
                   "established peer is still a peer after the datagram is handled, unless the datagram opened (genuine seal under the connection "
                   "key, admitted by the replay window - C02/C03) as a CLOSE message of that very peer. Plus: forged datagrams leave no trace; a "
